@@ -1,6 +1,7 @@
 """C05: the statements of HermEigsBase::compute / GenEigsBase::compute AFTER the restart loop (flag refresh condition, final
 sort call, iteration counter, status, return value) -> module Gen.Status, regenerated on every run.  The loop itself and the
 prologue are translated by tgt_c13.py (`Gen.Restart.*ComputeSkel_*`)."""
+import re
 from xlate import Fn, XlateError
 
 def _strip(x):
@@ -249,4 +250,95 @@ def num_converged(tu, t):
 MODULES.append(('Conv', [
     dict(lean='hermNumConverged', header='HermEigsBase.h', custom=num_converged, path='HermEigsBase::num_converged', cfg={'complex_val': False}),
     dict(lean='genNumConverged', header='GenEigsBase.h', custom=num_converged, path='GenEigsBase::num_converged', cfg={'complex_val': True}),
+], ''))
+
+# ------------------------------------------------------------------ copy loops of retrieve_ritzpair / sort_ritzpair (module Gen.Copy)
+def _strip(x):
+    while x.get('kind') in ('ParenExpr', 'ImplicitCastExpr', 'ExprWithCleanups', 'MaterializeTemporaryExpr'): x = x['inner'][0]
+    return x
+def _member_call(x, name):
+    return x.get('kind') == 'CallExpr' and x['inner'] and x['inner'][0].get('kind') == 'CXXDependentScopeMemberExpr' and x['inner'][0].get('member') == name
+def _objname(x):
+    x = _strip(x)
+    if x.get('kind') == 'MemberExpr': return x.get('name')
+    if x.get('kind') == 'DeclRefExpr': return x['referencedDecl'].get('name')
+    return None
+def _aref(name): return {'kind': 'DeclRefExpr', 'type': {'qualType': 'long *'}, 'referencedDecl': {'kind': 'VarDecl', 'name': name}}
+def _asub(name, idx): return {'kind': 'ArraySubscriptExpr', 'type': {'qualType': 'long'}, 'inner': [_aref(name), idx]}
+
+def _rewrite_cols(x, dst, src, sel, rowcall=None, rows=None):
+    """`dst.col(a).noalias() = src.col(b)` -> `sel[a] = b`;  `rowcall(r, c)` -> `<rowcall>_row[c]` (r recorded in rows)"""
+    if not isinstance(x, dict): return
+    inner = x.get('inner', [])
+    for k, c in enumerate(inner):
+        if not isinstance(c, dict): continue
+        if c.get('kind') == 'BinaryOperator' and c.get('opcode') == '=':
+            lhs, rhs = c['inner']
+            l2 = lhs['inner'][0]['inner'][0] if _member_call(lhs, 'noalias') else lhs
+            if _member_call(l2, 'col') or _member_call(rhs, 'col'):
+                if not (_member_call(l2, 'col') and _member_call(rhs, 'col')): raise XlateError('column copy with a non-column side')
+                if _objname(l2['inner'][0]['inner'][0]) != dst or _objname(rhs['inner'][0]['inner'][0]) != src:
+                    raise XlateError(f'column copy is not {dst}.col(..) = {src}.col(..)')
+                inner[k] = {'kind': 'BinaryOperator', 'opcode': '=', 'type': {'qualType': 'long'}, 'inner': [_asub(sel, l2['inner'][1]), rhs['inner'][1]]}
+                continue
+        if rowcall and c.get('kind') == 'CallExpr' and _strip(c['inner'][0]).get('kind') == 'DeclRefExpr' and _objname(c['inner'][0]) == rowcall and len(c['inner']) == 3:
+            rows.append(c['inner'][1])
+            inner[k] = _asub(rowcall + '_row', c['inner'][2])
+            _rewrite_cols(inner[k], dst, src, sel, rowcall, rows)
+            continue
+        _rewrite_cols(c, dst, src, sel, rowcall, rows)
+
+def retrieve_loops(tu, t):
+    """the two copy loops at the end of retrieve_ritzpair: m_ritz_val[i] = evals[ind[i]]; m_ritz_est[i] = evecs(m_ncv - 1, ind[i]);
+    m_ritz_vec.col(i) = evecs.col(ind[i]) (recorded as vecsel[i] = ind[i])"""
+    import copy
+    node = tu.find(t['path'], 0); body = _body(node)
+    if [s['kind'] for s in body[-2:]] != ['ForStmt', 'ForStmt'] or any(s['kind'] == 'ForStmt' for s in body[:-2]):
+        raise XlateError('retrieve_ritzpair: the body does not end with exactly two loops')
+    ak = t['cfg']['arr']
+    loops = copy.deepcopy(body[-2:]); rows = []
+    for f in loops: _rewrite_cols(f, 'm_ritz_vec', 'evecs', 'vecsel', 'evecs', rows)
+    if len(rows) != 1: raise XlateError('retrieve_ritzpair: expected exactly one evecs(row, col) read')
+    r = _strip(rows[0])
+    ok = r.get('kind') == 'BinaryOperator' and r.get('opcode') == '-' and _objname(r['inner'][0]) == 'm_ncv' and _strip(r['inner'][1]).get('kind') == 'IntegerLiteral'
+    if not ok: raise XlateError('retrieve_ritzpair: the row read from evecs is not m_ncv - <literal>')
+    fn = Fn(tu, node, dict(mode='value', members={'m_nev': 'int', 'm_ncv': 'int', 'm_ritz_val': ak, 'm_ritz_est': ak}))
+    out = Out(); env = {'m_ritz_val': ('m_ritz_val', ak), 'm_ritz_est': ('m_ritz_est', ak), 'vecsel': ('vecsel', 'arr_int'),
+                        'evals': ('evals', ak), 'evecs_row': ('evecs_row', ak), 'ind': ('ind', 'arr_int')}
+    fn.stmts(loops, env, out, 2, lambda e, o, i: o.add(i, f'({e["m_ritz_val"][0]}, {e["m_ritz_est"][0]}, {e["vecsel"][0]})'))
+    ty = '(α × α)' if ak == 'arr_cplx' else 'α'
+    L = t['lean']
+    return (f'def {L}_estRow (m_ncv : Int) : Int := m_ncv - {_strip(r["inner"][1])["value"]}\n\n'
+            f'def {L} {{α : Type}} [Add α] [Sub α] [Mul α] [Div α] [Neg α] [Sc α] (m_nev m_ncv : Int) (evals evecs_row : Int → {ty}) (ind : Int → Int) '
+            f'(m_ritz_val m_ritz_est : Int → {ty}) (vecsel : Int → Int) : (Int → {ty}) × (Int → {ty}) × (Int → Int) :=\n' + out.render())
+
+def sort_loop(tu, t):
+    """the loop of sort_ritzpair: new_ritz_val[i] = m_ritz_val[ind[i]]; new_ritz_vec.col(i) = m_ritz_vec.col(ind[i]) (vecsel[i] = ind[i]);
+    new_ritz_conv[i] = m_ritz_conv[ind[i]]; followed by exactly the three swaps new_* <-> m_*"""
+    import copy
+    node = tu.find(t['path'], 0); body = _body(node)
+    fors = [k for k, s in enumerate(body) if s['kind'] == 'ForStmt']
+    if len(fors) != 1 or fors[0] != len(body) - 4: raise XlateError('sort_ritzpair: expected one loop followed by three statements')
+    swaps = set()
+    for s in body[-3:]:
+        txt = re.sub(r'\s+', '', tu.src_text(s))
+        m = re.fullmatch(r'(m_ritz_\w+)\.swap\((new_ritz_\w+)\)', txt)
+        if not m or m.group(2) != 'new_' + m.group(1)[2:]: raise XlateError('sort_ritzpair: statement after the loop is not m_X.swap(new_X): ' + txt)
+        swaps.add(m.group(1))
+    if swaps != {'m_ritz_val', 'm_ritz_vec', 'm_ritz_conv'}: raise XlateError('sort_ritzpair: the three swaps do not cover val/vec/conv')
+    ak = t['cfg']['arr']
+    loop = copy.deepcopy(body[fors[0]])
+    _rewrite_cols(loop, 'new_ritz_vec', 'm_ritz_vec', 'vecsel')
+    fn = Fn(tu, node, dict(mode='value', members={'m_nev': 'int', 'm_ncv': 'int', 'm_ritz_val': ak, 'm_ritz_conv': 'arr_bool'}))
+    out = Out(); env = {'new_ritz_val': ('new_ritz_val', ak), 'new_ritz_conv': ('new_ritz_conv', 'arr_bool'), 'vecsel': ('vecsel', 'arr_int'), 'ind': ('ind', 'arr_int')}
+    fn.stmts([loop], env, out, 2, lambda e, o, i: o.add(i, f'({e["new_ritz_val"][0]}, {e["vecsel"][0]}, {e["new_ritz_conv"][0]})'))
+    ty = '(α × α)' if ak == 'arr_cplx' else 'α'
+    return (f'def {t["lean"]} {{α : Type}} [Add α] [Sub α] [Mul α] [Div α] [Neg α] [Sc α] (m_nev m_ncv : Int) (m_ritz_val : Int → {ty}) (m_ritz_conv : Int → Bool) (ind : Int → Int) '
+            f'(new_ritz_val : Int → {ty}) (vecsel : Int → Int) (new_ritz_conv : Int → Bool) : (Int → {ty}) × (Int → Int) × (Int → Bool) :=\n' + out.render())
+
+MODULES.append(('Copy', [
+    dict(lean='hermRetrieve_loops', header='HermEigsBase.h', custom=retrieve_loops, path='HermEigsBase::retrieve_ritzpair', cfg={'arr': 'arr_sc'}),
+    dict(lean='genRetrieve_loops', header='GenEigsBase.h', custom=retrieve_loops, path='GenEigsBase::retrieve_ritzpair', cfg={'arr': 'arr_cplx'}),
+    dict(lean='hermSort_loop', header='HermEigsBase.h', custom=sort_loop, path='HermEigsBase::sort_ritzpair', cfg={'arr': 'arr_sc'}),
+    dict(lean='genSort_loop', header='GenEigsBase.h', custom=sort_loop, path='GenEigsBase::sort_ritzpair', cfg={'arr': 'arr_cplx'}),
 ], ''))
